@@ -35,6 +35,13 @@ def replay(ctx, rec, found):
     except al.Abort as ab:
         report(ab.what, ab.index + 1, {})
         return
+    # the same history with inexact floats, against the float oracle (left-to-right addition where the
+    # built-in sum agrees with it)
+    try:
+        for idx, m in al.float_variant(kind, h):
+            report("compute:%s" % m["what"], idx + 1, dict(m, floats="x -> 0.1 * x + 0.7 * (index mod 5)"))
+    except Exception as exc:      # noqa
+        report("float-variant:raised:" + al.exc_name(exc), len(h), {"exception": repr(exc)[:200]})
     resets = [j for j, o in enumerate(h) if o["op"] == "r"]
     ci = 0
     for j, o in enumerate(h):
@@ -98,6 +105,10 @@ def run(ctx):
     tag = "thorough" if ctx.thorough else "quick"
     ctx.assume("numeric fills are small integers (exact in TLC); floats are dyadics given as limb lists, "
                "full-mantissa doubles in the recorded histories; contexts are fresh objects per fill")
+    ctx.assume("inexact floats are judged outside TLC (DESIGN.md section 6): 'Sum yields Python's sum' is read as "
+               "left-to-right float addition functools.reduce(operator.add, values, start) and checked only on "
+               "sequences where the built-in sum() (compensated since Python 3.12) gives the identical number; the "
+               "same for the numerator of Mean and the mean of VarianceMeanCount, its variance up to rounding")
     ctx.assume("Mean and VarianceMeanCount: TLC supplies/checks the exact aggregates (sum, count, variance as a "
                "rational); the harness applies float(sum)/float(count) exactly and compares the variance up to "
                "rounding (1e-9 relative to the mean square)")
@@ -140,6 +151,7 @@ def run(ctx):
             continue
         histories.append(events)
     validate_histories(ctx, histories)
+    float_oracle(ctx, rnd)
     return ctx.finish(
         rule="S2C: every history over {fill(v), compute, reset} of the bounded Accumulators model (45 element "
              "kinds, 62 in the thorough tier; floats as exact halves, values that look like nothing, deprecated "
@@ -149,6 +161,26 @@ def run(ctx):
              "random ints, full-mantissa floats of mixed magnitude, random contexts/edges) validated step by step "
              "by Trace_Accumulators with all invariants",
         exhaustive=True)
+
+
+def float_oracle(ctx, rnd):
+    """Seeded random float sequences with inexact additions: Sum (also Sum.total, a start value, Vectorize(Sum)),
+    Mean's numerator, the mean and variance of VarianceMeanCount against the float oracle of acclib."""
+    decided = 0
+    for _ in range(6000 if ctx.thorough else 1200):
+        kind, xs = al.rand_float_history(rnd)
+        ctx.case(["float-oracle", al.label(kind), [repr(x) for x in xs]])
+        try:
+            bad = al.run_float_history(kind, xs, rnd.random() < 0.5)
+        except Exception as exc:      # noqa
+            ctx.violation("%s:float-history:raised:%s" % (al.label(kind), al.exc_name(exc)), {"floats": [repr(x) for x in xs]})
+            continue
+        decided += 1 if al.sums_agree(xs, kind.get("start", 0)) else 0
+        for m in bad[:1]:
+            ctx.violation("%s:compute:%s" % (al.label(kind), m["what"]), m)
+    ctx.extra["float_oracle_sequences_where_both_readings_of_sum_agree"] = decided
+    if decided < 100:
+        raise core.MachineryError("the float oracle decided only %d sequences" % decided)
 
 
 def validate_histories(ctx, histories):
